@@ -225,8 +225,12 @@ SOLVERS = {
     "PCGNR": ["none", "jacobi"],
     "PMR": ["none", "jacobi", "sor", "ssor", "ilu"],
     "Chebyshev": ["none"],
+    # these three need Global::Vector (asynchronous reductions): run on a single-process gate, preconditioners none / Jacobi
+    "PipePCG": ["none", "jacobi"],
+    "GroppPCG": ["none", "jacobi"],
+    "RBiCGStab": ["none", "jacobi"],
 }
-SYM_ONLY = ("PCG", "PCR", "Chebyshev")
+SYM_ONLY = ("PCG", "PCR", "Chebyshev", "PipePCG", "GroppPCG")
 
 
 def v_cases(tier, rng):
@@ -296,6 +300,37 @@ def v_cases(tier, rng):
     return cases
 
 
+def validate(chk, traces):
+    """run spec/Trace_SolverCtl.tla on the recorded solves; returns {trace index: verdict}"""
+    tdir = os.path.join(vlib.BUILD, "gen", "C07")
+    os.makedirs(tdir, exist_ok=True)
+    nshard = 4 if len(traces) > 2000 else 1
+    verdicts = {}
+    jobs = []
+    for s in range(nshard):
+        idx = list(range(s, len(traces), nshard))
+        path = os.path.join(tdir, "traces_%d_%d.ndjson" % (os.getpid(), s))
+        with open(path, "w") as f:
+            for k in idx:
+                f.write(json.dumps(traces[k], separators=(",", ":")) + "\n")
+        jobs.append((idx, path))
+    with cf.ThreadPoolExecutor(max_workers=nshard) as ex:
+        futs = [(idx, path, ex.submit(vlib.tlc, "Trace_SolverCtl", "Trace_SolverCtl.cfg", env={"TRACE": path}, tag="c07v_%d" % s, xmx="4g",
+                                      timeout=1500)) for s, (idx, path) in enumerate(jobs)]
+        for idx, path, f in futs:
+            r = f.result()
+            if chk is not None:
+                chk.add_tlc(r, "V trace validation")
+                if r.violation:
+                    chk.model_violation(r, "Trace_SolverCtl")
+            for v in r.printed:
+                verdicts[idx[v["trace"] - 1]] = v
+            os.remove(path)
+    if len(verdicts) != len(traces):
+        raise vlib.MachineryError("trace validation returned %d verdicts for %d traces" % (len(verdicts), len(traces)))
+    return verdicts
+
+
 def run_v(chk):
     import random
     rng = random.Random(vlib.seed() * 7919 + 17)
@@ -319,31 +354,7 @@ def run_v(chk):
             diags.append(d)
     if not traces:
         raise vlib.MachineryError("no solver traces recorded")
-    tdir = os.path.join(vlib.BUILD, "gen", "C07")
-    os.makedirs(tdir, exist_ok=True)
-    nshard = 4 if len(traces) > 2000 else 1
-    verdicts = {}
-    jobs = []
-    for s in range(nshard):
-        idx = list(range(s, len(traces), nshard))
-        path = os.path.join(tdir, "traces_%d_%d.ndjson" % (os.getpid(), s))
-        with open(path, "w") as f:
-            for k in idx:
-                f.write(json.dumps(traces[k], separators=(",", ":")) + "\n")
-        jobs.append((idx, path))
-    with cf.ThreadPoolExecutor(max_workers=nshard) as ex:
-        futs = [(idx, path, ex.submit(vlib.tlc, "Trace_SolverCtl", "Trace_SolverCtl.cfg", env={"TRACE": path}, tag="c07v_%d" % s, xmx="4g",
-                                      timeout=1500)) for s, (idx, path) in enumerate(jobs)]
-        for idx, path, f in futs:
-            r = f.result()
-            chk.add_tlc(r, "V trace validation")
-            if r.violation:
-                chk.model_violation(r, "Trace_SolverCtl")
-            for v in r.printed:
-                verdicts[idx[v["trace"] - 1]] = v
-            os.remove(path)
-    if len(verdicts) != len(traces):
-        raise vlib.MachineryError("trace validation returned %d verdicts for %d traces" % (len(verdicts), len(traces)))
+    verdicts = validate(chk, traces)
     nev, ninscope, nsucc, margin = 0, 0, 0, None
     stat, clause_hist = {}, {}
     for k, T in enumerate(traces):
@@ -405,7 +416,48 @@ def run(chk):
                 "tolerances, stagnation on/off, skip-defect-calculation on/off) x defect norms {0,1,2,4,8,16,inf,nan}; "
                 "G: every maximal behaviour of the small scope (exhaustive) plus seeded random behaviours of the full palette with two "
                 "solves on one object, each call compared with the predicted (status, num_iter, def_init, def_cur, def_prev, "
-                "num_stag_iter, is_converged, is_diverged); non-trivial = at least one iteration step; distinct = distinct behaviour")
+                "num_stag_iter, is_converged, is_diverged); V: seeded cases = solver x preconditioner x system kind (SPD / nonsymmetric "
+                "diagonally dominant / integer / near-identity, n <= 60, optional unit filter) x scenario (random limits, convergence, "
+                "Krylov space exhaustion, smoother configuration, exact start / zero rhs, injected preconditioner failure), each case = "
+                "3-4 solves on one object (again, done/init, other entry point); non-trivial = at least one iteration step; distinct = "
+                "distinct behaviour / distinct (solver, preconditioner, scenario, system, outcome)")
     chk.assumptions = ["contradictory limits (min_iter > max_iter) have no declarative meaning; the code lets min_iter win "
                        "(model-checked as IterLimit = max(max_iter, min_iter, 1))",
-                       "plot mode none (plotting forces the defect calculation, it has no other influence on the machine)"]
+                       "plot mode none (plotting forces the defect calculation, it has no other influence on the machine)",
+                       "true residual clause: ||b-Ax|| (long double) <= certified threshold + drift, drift = C (n+2) eps (||A||_F max_j||x_j|| + ||b||) "
+                       "with C = 16 for solvers that recompute the defect, 64 (iterations+2) for recurrence solvers, x1000 for the pipelined "
+                       "variants; the smallest ratio drift / (true residual - reported defect) is recorded as v_true_residual_min_margin",
+                       "convergence clause: BiCG-type methods and IDR(s) have no convergence theorem; they are judged on strictly diagonally "
+                       "dominant systems only (table InScope in spec/Trace_SolverCtl.tla)",
+                       "PipePCG/GroppPCG/RBiCGStab run on Global::Vector with a single-process gate and preconditioners none/Jacobi only; "
+                       "PCGNR with none/Jacobi only; BiCGStabL in the left variant with l = 2, (F)GMRES with krylov_dim 4, IDR(3)"]
+
+
+def replay(obj):
+    bad = 0
+    gcases = [v["replay"]["case"] for v in obj["violations"] if v["replay"] and v["replay"].get("harness") == "c07_scripted"]
+    if gcases:
+        binary, = vlib.build(["c07_scripted"])
+        for c, r in zip(gcases, vlib.run_cases(binary, gcases, tmo=20, shards=1)):
+            print(json.dumps({"cfg": c["cfg"], "result": r})[:800])
+            bad += 0 if r.get("ok") is True else 1
+    vcases = [v["replay"]["case"] for v in obj["violations"] if v["replay"] and v["replay"].get("harness") == "c07_solvers"]
+    if vcases:
+        binary, = vlib.build(["c07_solvers"])
+        traces = []
+        for c, r in zip(vcases, vlib.run_cases(binary, vcases, tmo=60, shards=1)):
+            if "traces" not in r:
+                print(json.dumps({"case": c, "result": r})[:800])
+                bad += 1
+            else:
+                traces.extend(r["traces"])
+        if traces:
+            ver = validate(None, traces)
+            for k, T in enumerate(traces):
+                print(json.dumps({"solve": [T["solver"], T["prec"], T["scen"], T["tag"], T["ret"], T["retNi"]], "fails": ver[k]["fails"]}))
+                bad += 1 if ver[k]["fails"] else 0
+    for v in obj["violations"]:
+        if v["replay"] and v["replay"].get("kind") == "tlc":
+            print("model counterexample: re-run with", v["replay"]["cmd"])
+            bad += 1
+    return 1 if bad else 0
